@@ -1,6 +1,7 @@
 CONSTANTS
   LayoutNames = {"bolt_req", "bolt_resp", "boltv2_req", "boltv2_resp", "dubbo_req", "dubbo_resp", "thrift_req", "thrift_resp", "tars_req", "tars_resp"}
   Defects = {"NoCompleteCheck"}
+  Dense = FALSE
   Emit = FALSE
 SPECIFICATION Spec
 INVARIANTS InvNoPanic InvNoMissing InvExact InvPristine InvAlloc InvNoOOB
